@@ -30,8 +30,23 @@ def main(argv):
         return mod.run(ctx)
     except SystemExit:
         raise
-    except Exception:
+    except Exception as e:
+        tb = traceback.format_exc()
         traceback.print_exc()
+        frames = traceback.extract_tb(e.__traceback__)
+        in_impl = any("/tsim/" in (f.filename or "") and "/verif/" not in (f.filename or "") for f in frames)
+        if in_impl or ctx.violations:
+            # the implementation raised where the check did not anticipate it (behaviour the check relies on has changed): that is a
+            # verdict, not an internal error.  Violations with a concrete input that were already reported stand; otherwise the broken
+            # expectation is reported without a failing input.
+            if not ctx.violations:
+                ctx.violation("implementation-raised", f"tsim raised {e!r} inside a call the check relies on: {tb[-900:]}", {"error": tb[-3000:]},
+                              no_failing_input=True)
+            try:
+                ctx.finish(rule="the run ended early: the implementation raised inside a call the check relies on", explanation=tb[-600:])
+            except Exception:
+                pass
+            return 1
         # an internal error of the machinery is not a verdict; exit 2 (neither pass nor violation)
         return 2
 
